@@ -56,8 +56,16 @@
    and the owner's two logs hold exactly one SetSent for it -- from C02_reported_at_most_once
    (one-sided, any input: at most one SetSent/SetDeferred per MID per session) and
    C02_processed_at_most_once (joint: in any cut session each MID reaches a handler at most
-   once, failed stores included). *)
-From Verif Require Import Base.Bytes B2F.Secure B2F.Side B2F.SideP B2F.CutP B2F.PairDefs B2F.PairHs B2F.PairP B2F.DeliverP B2F.ConvergeP B2F.ConvergeCutP B2F.ConvergeOnceP.
+   once, failed stores included).  ANY NUMBER of faulty sessions followed by a complete one
+   (C02_many_sessions, B2F/ConvergeManyP.v): over the concatenated logs of all sessions of a
+   `history` (each session a cut session of the mailboxes carried over from the previous one)
+   and the final complete session, the successful Process events of every accepted entry are
+   exactly one, carrying the owner's message, and exactly one SetSent is logged -- in both
+   directions, with the ORIGINAL policies.  It rests on C02_stored_only_accepted (in any cut
+   session nothing reaches the handler under a MID its policy does not accept, so what is
+   stored once is never stored again).  Not covered: entries the original policy defers
+   (they stay pending), and storage faults after the first session (next_cfg resets them). *)
+From Verif Require Import Base.Bytes B2F.Secure B2F.Side B2F.SideP B2F.CutP B2F.PairDefs B2F.PairHs B2F.PairP B2F.DeliverP B2F.ConvergeP B2F.ConvergeCutP B2F.ConvergeOnceP B2F.ConvergeManyP.
 Open Scope N_scope.
 
 (* TWO-PARTY SAFETY *)
@@ -260,3 +268,33 @@ Print Assumptions C02_processed_at_most_once.
 (* NoDup is needed: the same MID twice in the outbox is reported twice in one session *)
 Example C02_nodup_needed := reported_twice_without_nodup.
 Example C02_exactly_once_instance := convergence_exactly_once_dx.
+
+(* SEVERAL faulty sessions, then a complete one: exactly once over ALL logs *)
+Theorem C02_many_sessions : forall (x y : side_cfg) l xn yn (in_x' in_y' : bytes),
+  c_master x = negb (c_master y) ->
+  hs_compat (if c_master x then x else y) (if c_master x then y else x) ->
+  side_sound x -> side_sound y ->
+  history x y l xn yn -> l <> [] -> closed xn yn in_x' in_y' ->
+  let Lx := logs_x l ++ x_events (exchange xn in_x') in let Ly := logs_y l ++ x_events (exchange yn in_y') in
+  (forall p, In p (h_outbox (c_handler x)) -> policy_of (c_handler y) (o_mid p) = AAccept ->
+     filter (stored_ev (o_mid p)) Ly = [EvProcess (o_mid p) (pm_data p) true] /\
+     length (filter (sent_ev (o_mid p)) Lx) = 1%nat) /\
+  (forall p, In p (h_outbox (c_handler y)) -> policy_of (c_handler x) (o_mid p) = AAccept ->
+     filter (stored_ev (o_mid p)) Lx = [EvProcess (o_mid p) (pm_data p) true] /\
+     length (filter (sent_ev (o_mid p)) Ly) = 1%nat).
+Proof. exact convergence_many. Qed.
+Print Assumptions C02_many_sessions.
+
+(* in ANY cut session: what reaches a side's handler was accepted by its policy *)
+Theorem C02_stored_only_accepted : forall (a b : side_cfg) (in_a in_b : bytes),
+  c_master a = negb (c_master b) ->
+  hs_compat (if c_master a then a else b) (if c_master a then b else a) ->
+  side_sound a -> side_sound b ->
+  cut_session a b in_a in_b ->
+  forall mid d ok, In (EvProcess mid d ok) (x_events (exchange a in_a)) -> policy_of (c_handler a) mid = AAccept.
+Proof. exact stored_only_accepted. Qed.
+Print Assumptions C02_stored_only_accepted.
+
+(* a history of two different cuts and a complete session, its hypotheses checked by computation,
+   and the theorem's conclusion for it *)
+Example C02_many_sessions_instance := (many_three_sessions_logs, many_three_sessions_history, many_three_sessions_delivered).
